@@ -75,9 +75,13 @@ def make_prog(spec, i):
     for ti in range(nthreads):
         steps = []
         for si in range(r.choice([1, 1, 2])):
-            if private[ti] and r.random() < 0.3:
-                # a read on an object (and file) no other thread uses
-                op = r.choice(["call", "len", "getitem", "iter"])
+            own_object = hof.count(hof[ti]) == 1
+            if (private[ti] or own_object) and r.random() < 0.3:
+                # a read on an object no other thread uses (its file may be shared with another object; in the
+                # shared-memory strategy only reads that do not iterate the shared container - iterating it
+                # next to a writer is the C14 known finding D13)
+                atomic_only = info.strategy == "memory" and not private[ti]
+                op = r.choice(["len", "getitem"] if atomic_only else ["call", "len", "getitem", "iter"])
                 args = [("a" if kind == "dict" else 0)] if op == "getitem" else []
                 steps.append({"op": op, "h": hof[ti], "path": [], "args": args})
                 continue
